@@ -2,6 +2,7 @@ package checks
 
 import (
 	"context"
+	"sync/atomic"
 	"encoding/base64"
 	"encoding/hex"
 	"encoding/json"
@@ -80,6 +81,10 @@ func guardedCall(svc jsonrpc2.Service, method string, params ...interface{}) (ou
 	var raw json.RawMessage
 	out.Err = svc.Call(ctx, &raw, method, params...)
 	out.Raw = raw
+	if out.Err != nil && ctx.Err() == context.DeadlineExceeded {
+		atomic.AddInt64(&vlib.WatchdogFired, 1)
+		out.Err = vlib.ErrWatchdog
+	}
 	if out.Err != nil && strings.Contains(out.Err.Error(), "failed to verify signature") {
 		out.Verify = true
 	} else {
